@@ -258,4 +258,5 @@ VARIANTS = [
     V("frac-overrides-count", SF, "        if self.algo_parameters.get(\"n_burn_in_iter\", None) is None:", "        if n_burn_in_iter_frac is not None:", "C05.R4"),
     V("silent-robbins-monro-form", FITF, "k: v * (1.0 - burn_in_step) + burn_in_step * sufficient_statistics[k]", "k: v + burn_in_step * (sufficient_statistics[k] - v)", None),
     V("silent-guard-rewritten", FITF, "self.current_iteration == 1 + self.algo_parameters[\"n_burn_in_iter\"]", "self.current_iteration - self.algo_parameters[\"n_burn_in_iter\"] == 1", None),
+    V("silent-step-temporary", "src/leaspy/algo/fit/mcmc_saem.py", "            burn_in_step **= -self.algo_parameters[\"burn_in_step_power\"]\n", "            power = self.algo_parameters[\"burn_in_step_power\"]\n            burn_in_step = burn_in_step ** (-power)\n", None),
 ]
